@@ -79,4 +79,32 @@ def isPatternSyntax (b : UInt8) : Bool :=
 def escapePatternString (s : Bytes) : Bytes :=
   s.flatMap (fun b => if isPatternSyntax b then [0x5C, b] else [b])
 
+/-- "escape a regexp string": . + * ? ^ $ { } ( ) [ ] | / \ -/
+def isRegexpSyntax (b : UInt8) : Bool :=
+  b == 0x2E || b == 0x2B || b == 0x2A || b == 0x3F || b == 0x5E || b == 0x24 || b == 0x7B || b == 0x7D || b == 0x28 ||
+  b == 0x29 || b == 0x5B || b == 0x5D || b == 0x7C || b == 0x2F || b == 0x5C
+def escapeRegexpString (s : Bytes) : Bytes :=
+  s.flatMap (fun b => if isRegexpSyntax b then [0x5C, b] else [b])
+
+/-- "is an absolute pathname" (type "pattern": also `\\/` and `{/`) -/
+def isAbsolutePathname (input : Bytes) (typeIsUrl : Bool) : Bool :=
+  match input with
+  | [] => false
+  | a :: rest =>
+    if a == 0x2F then true
+    else if typeIsUrl then false
+    else match rest with
+      | b :: _ => b == 0x2F && (a == 0x5C || a == 0x7B)
+      | [] => false
+
+/-- "hostname pattern is an IPv6 address" -/
+def isIpv6Address (input : Bytes) : Bool :=
+  match input with
+  | a :: b :: _ => a == 0x5B || (a == 0x7B && b == 0x5B) || (a == 0x5C && b == 0x5B)
+  | _ => false
+
+/-- "process a base URL string" -/
+def processBaseUrlString (input : Bytes) (typeIsPattern : Bool) : Bytes :=
+  if typeIsPattern then escapePatternString input else input
+
 end AdaVerif.Spec.Pattern
